@@ -62,6 +62,11 @@ def main(argv):
     thm = C.recheck_theorems(pid) if ok_build else {"obligations": 1, "discharged": 0, "theorems": [], "closed": 0,
                                                     "axioms": [], "ok": False, "output": build_out, "banned": []}
     mod = importlib.import_module(f"harness.{pid.lower()}")
+    chk = C.coqchk_summary(pid) if (tier == "thorough" and ok_build and thm["ok"]) else None
+    if chk is not None and not chk["ok"]:
+        thm["ok"] = False
+        thm["discharged"] = 0
+        thm["output"] = "coqchk failed: " + chk["summary"]
     hashes = C.source_hashes(getattr(mod, "ANCHORS", []))
     base = C.baseline_hashes(pid)
     changed = sorted(k for k in hashes if base and base.get(k) != hashes[k])
@@ -136,6 +141,7 @@ def main(argv):
             "Python harness: generators, comparers inside Coq (close_x: rel 2^-30 / abs 2^-40), property oracles",
         ] + list(res.assumptions),
         "theorems": thm["theorems"],
+        "coqchk": chk["summary"] if chk else "coqchk -o (independent checker) runs in the thorough tier",
         "evaluations": res.evaluations,
         "distinct_nontrivial": len(res.nontrivial),
         "rule": res.rule,
